@@ -251,3 +251,8 @@ package types
 //@ ; the transaction executes a wrkchain message, directly or wrapped in a message that carries other messages (C06: "however they are wrapped")
 //@ (define-fun wrkTxDeep ((t Iface)) Bool (exists ((j Int)) (and (<= 0 j) (< j (sl.len (txMsgs t))) (or (isWrkMsg (select (sl.arr (txMsgs t)) j)) (exists ((i Int)) (and (<= 0 i) (< i (sl.len (nestedMsgs (select (sl.arr (txMsgs t)) j)))) (isWrkMsg (select (sl.arr (nestedMsgs (select (sl.arr (txMsgs t)) j))) i))))))))
 //@ end
+
+// decoding of a stored value, as seen by list queries
+//@ prelude
+//@ (define-fun decodeWrkChain ((b (Slice Int))) wrkchain.WrkChain (unmarshal.wrkchain.WrkChain b))
+//@ end
